@@ -1,37 +1,87 @@
 """C02 — returned specifications are closed, one-rule-per-class, genuine and productive."""
 from harness.props.c03 import naive_lfp
 from harness.universes import runs
+from harness.universes import words_c02  # registers the one-way expansion packs and their start classes
 
 ID = "C02"
 TITLE = "returned specifications: closed, one rule per class, genuine, productive"
 COQ_PROPS = "Props/C02.v"
 COQ_RUN = ("Spec.ExtractorRun", "run_c02")
 GEN_TARGETS = []
-N = {"quick": 8000, "thorough": 40000}
+N = {"quick": 12000, "thorough": 40000}
 RULE = (
-    "real searches: word universes (16 start classes x 10 packs incl. symmetries, inferral, factories with ready and "
-    "foreign-parent rules, non-atom verification, iterative x 4 rule databases x expand_verified/smallest x random "
-    "proof-tree seeds) and random table universes (integer classes, table-driven strategies). For the pruning "
-    "databases the real SpecificationRuleExtractor runs with recorded set order and find_path answers and its rules "
-    "dictionary is compared with the model; for every returned rule set the oracle re-decides closedness, "
-    "one-rule-per-class, genuineness (re-applying the rule's strategy to its parent) and productivity (naive Kleene "
-    "iteration over (parent, children, shifts)); the model's table-method verdict on the same keys is compared with "
-    "the real TableMethod. Non-trivial: a specification with >= 3 rules was returned; distinct = distinct case."
+    "real searches: word universes (18 start classes + 5 with a single non-empty extension x 22 packs incl. symmetries, "
+    "inferral, factories with ready and foreign-parent rules, non-atom verification, iterative, one-way unary rules, and "
+    "the example's expansion strategy declared one-way x 4 rule databases x expand_verified/smallest x random "
+    "proof-tree seeds) and random table universes (integer classes, table-driven strategies). Per search that "
+    "announces a specification: (1) for the pruning databases the real SpecificationRuleExtractor runs with recorded "
+    "set order and find_path answers and its dictionary is compared with the model; (2) its rules() - every "
+    "_find_rule call, on the class database as it is then, over the real stores (dicts of RuleDB / RecomputingDict) - "
+    "is compared with the model over the strategy table (word searches are tabulated): form of every rule handed out "
+    "(as it is / equivalence form / reverse / equivalence form reversed), strategy, classes, is_equivalence(), the "
+    "exception if any, labels allocated; (3) the real CombinatorialSpecification(root, rules) (group_equiv=True, as "
+    "get_specification builds it; table universes too: their classes have what the constructor needs) is compared "
+    "with the model: exception or rules_dict as a map class -> (plain / path / lazily added empty rule, children, "
+    "members of a path with their identity), the set of labelled classes, rules_dict after _ungroup_equiv_path, and "
+    "whether the hypotheses of the grouping theorems hold (decided by the model's wf_inputb and independently in "
+    "Python); the same for the rules in reverse order and for the rules with one rule left out; (4) for every "
+    "returned rule set and for the dictionary of the specification object the oracle re-decides closedness, "
+    "one-rule-per-class, genuineness (re-applying the rule's strategy to its parent), productivity (naive Kleene "
+    "iteration over (parent, children, shifts)), that every rule handed in is kept or a member of a path, that path "
+    "rules are consistent chains, that ungrouping gives the rules back, that the order of the rules does not matter "
+    "and that no empty rule is made up for a non-empty class; the model's table-method verdict on the same keys is "
+    "compared with the real TableMethod. Non-trivial: a specification with >= 3 rules was returned; distinct = "
+    "distinct case."
 )
 TRUSTED = [
     "modelled, not verified: specification_extrator.py SpecificationRuleExtractor (_populate_decompositions, "
-    "_populate_equivalences, _no_lhs_labels, _check) — Spec/Extractor.v tied by this correspondence; equivdb.find_path "
-    "and the set iteration order are replayed from the real run (theorems quantify over all of them)",
-    "genuineness of rules and one-rule-per-class of the final CombinatorialSpecification are decided by the Python oracle",
+    "_populate_equivalences, _no_lhs_labels, _check: Spec/Extractor.v; _find_rule, rules: Spec/FindRule.v over the "
+    "strategy table of Searcher/Model.v and the stores of RuleDB/Model.v) and specification.py "
+    "CombinatorialSpecification.__init__ (rules_dict, _group_equiv_in_path, _ungroup_equiv_path, _is_valid_spec, "
+    "get_rule, _set_subrules, _enforce_labels: Spec/Grouping.v, with the asserts of EquivalencePathRule.__init__) - "
+    "tied by this correspondence; equivdb.find_path and the set iteration order are replayed from the real run "
+    "(theorems quantify over all of them)",
+    "the tabulation of word searches as strategy tables (harness/universes/words_c14.py Tabulator) and the conversion of "
+    "rule objects into (class, children, is_equivalence) records: a rule object's is_equivalence() is read off the "
+    "real object, not re-derived",
+    "genuineness of the rule OBJECTS (constructor, shifts: re-applying the strategy gives the same children) and "
+    "one-rule-per-class of the returned list are decided per instance by the Python oracle; C02_rules_from_table is "
+    "the theorem at the level of the strategy table",
 ]
 ASSUMPTIONS = [
-    "productivity of specifications found by the pruning databases is decided per returned specification (C02_productive_decided), not proved for all universes",
+    "productivity of specifications found by the pruning databases is decided per returned specification "
+    "(C02_productive_decided), not proved for all universes; C02_grouping_preserves_productivity carries the verdict "
+    "from the rules handed out to the grouped specification (a path rule counted with the SUM of its members' shifts; "
+    "EquivalencePathRule.shifts() itself asks the first member's strategy - 0 for the library's strategy families)",
+    "the grouping theorems assume wf_input (closed, one rule per class, equivalence rules unary with a rule for their "
+    "child, chains of hidden classes end, every class reachable from the root, the root has a rule or is empty); the "
+    "check decides it on every real rule set (6000+ per quick run): it holds for every word search except the open "
+    "finding, and fails in table universes only for the finding and for cycles of hidden classes (unary rules with "
+    "positive shifts, which the table universes' arbitrary shifts allow and no DisjointUnion strategy has)",
+    "C02_find_rule_total assumes the contracts: truthful emptiness cache (C04_empty_cache_truthful), strategies stored "
+    "as equivalences can be equivalences, two-way entries are reversible, and - for the reversed / equivalence forms - "
+    "that the class the entry ends in is not empty; RuleDBForgetStrategy additionally needs a pack strategy that "
+    "reproduces the rule on a class of the key (C14; refuted otherwise: C02_find_rule_forget_foreign_parent_refuted)",
+    "C02_enforce_labels_partial: termination of _enforce_labels within the model's fuel is not proved",
 ]
 
 
 def gen(rng, tier):
+    n_std = len(runs.W.START_SPECS) - len(words_c02.STARTS)
     while True:
-        yield runs.gen_case(rng, table_fraction=0.55)
+        case = runs.gen_case(rng, table_fraction=0.55)
+        if case["kind"] == "word":
+            # the packs and start classes registered by words_c02 are drawn by the dedicated branch below only
+            while case["pack"] in words_c02.PACK_NAMES:
+                case = dict(runs.W.random_cfg(rng), kind="word")
+            if case["start"] >= n_std:
+                case["start"] = rng.randrange(n_std)
+            if rng.random() < 0.04:
+                case["pack"] = rng.choice(words_c02.PACK_NAMES)
+                case["smallest"] = False
+                if rng.random() < 0.7:
+                    case["start"] = rng.choice(words_c02.start_indices())
+        yield case
 
 
 def _labels(classes):
@@ -85,12 +135,410 @@ def _spec_keys(rules):
     return keys, lab
 
 
+# ---------------------------------------------------------------- CombinatorialSpecification.__init__
+XCODE = {"chain": 1, "patheqv": 2, "pathunary": 3, "empty": 4, "valid": 5, "key": 6, "index": 7}
+
+
+def _ctor_error_code(e):
+    """small int for an exception raised by the constructor; the three places an AssertionError can come
+    from inside __init__ are told apart by the function that raised it (evidence only: the comparison with
+    the model is made on the coarse class, see _coarse)"""
+    import traceback
+
+    tb = traceback.extract_tb(e.__traceback__)
+    where = tb[-1].name if tb else ""
+    if isinstance(e, AssertionError):
+        if where == "get_rule":
+            return XCODE["empty"]
+        if where == "__init__":            # EquivalencePathRule.__init__
+            line = (tb[-1].line or "")
+            return XCODE["patheqv"] if "is_equivalence" in line else XCODE["pathunary"]
+        if where == "_group_equiv_in_path":
+            line = (tb[-1].line or "")
+            return XCODE["valid"] if "_is_valid_spec" in line else XCODE["chain"]
+        return XCODE["chain"]
+    if isinstance(e, KeyError):
+        return XCODE["key"]
+    if isinstance(e, IndexError):
+        return XCODE["index"]
+    return 8
+
+
+def _coarse(code):
+    """observable level: fine / AssertionError / KeyError / IndexError / did not finish"""
+    if code in (1, 2, 3, 4, 5):
+        return 1
+    return code
+
+
+class _Unfinished(Exception):
+    pass
+
+
+def _counting_spec_class(limit):
+    """the real CombinatorialSpecification; get_rule additionally counts its calls so that a constructor
+    that would loop for ever (a cycle of hidden classes: _group_equiv_in_path asks get_rule in every turn)
+    is stopped"""
+    from comb_spec_searcher import CombinatorialSpecification
+
+    class CountingSpec(CombinatorialSpecification):
+        _calls = 0
+
+        def get_rule(self, comb_class):
+            self._calls += 1
+            if self._calls > limit:
+                raise _Unfinished()
+            return super().get_rule(comb_class)
+
+    return CountingSpec
+
+
+def _rule_entry(lab, tags, cls_, rule):
+    from comb_spec_searcher.strategies.rule import EquivalencePathRule, VerificationRule
+    from comb_spec_searcher.strategies.strategy import EmptyStrategy
+
+    kids = [lab[c] for c in rule.children]
+    if isinstance(rule, EquivalencePathRule):
+        mem = [[lab[r.comb_class], tags.get(id(r), -2), [lab[c] for c in r.children]] for r in rule.rules]
+        return [lab[cls_], 1, mem[0][1], kids, mem]
+    t = tags.get(id(rule))
+    if t is None:
+        lazily = isinstance(rule, VerificationRule) and isinstance(rule.strategy, EmptyStrategy) and not rule.children
+        return [lab[cls_], 2 if lazily else 0, -1 if lazily else -2, kids, []]
+    return [lab[cls_], 0, t, kids, []]
+
+
+def _spec_observation(root, rules, lab=None):
+    """(model input, what the real constructor did) for CombinatorialSpecification(root, rules);
+    lab: class -> number, shared between the observations of one case (extended here)"""
+    from comb_spec_searcher.strategies.rule import EquivalencePathRule
+
+    classes = [root]
+    for r in rules:
+        for m in (r.rules if isinstance(r, EquivalencePathRule) else [r]):
+            classes.append(m.comb_class)
+            classes.extend(m.children)
+    if lab is None:
+        lab = {}
+    for c in classes:
+        lab.setdefault(c, len(lab))
+    tags = {}
+    enc_rules = []
+
+    unconverted = {"oneway": 0, "twoway": 0}
+
+    def enc(r, tag):
+        tags[id(r)] = tag
+        eqv = bool(r.is_equivalence())
+        if eqv and len(r.children) != 1:
+            try:
+                unconverted["twoway" if r.is_two_way() else "oneway"] += 1
+            except Exception:  # pylint: disable=broad-except
+                unconverted["twoway"] += 1
+        return [lab[r.comb_class], [lab[c] for c in r.children], int(eqv), [], tag]
+
+    for i, r in enumerate(rules):
+        if isinstance(r, EquivalencePathRule):
+            mem = [enc(m, 1000 * (i + 1) + j) for j, m in enumerate(r.rules)]
+            tags[id(r)] = i
+            enc_rules.append(mem[0] + [mem])
+        else:
+            enc_rules.append(enc(r, i) + [[]])
+    empties = sorted(lab[c] for c in lab if c.is_empty())
+    spec_in = [lab[root], 1, empties, enc_rules]
+    # equivalence rules with several children that were handed out unconverted: the open finding concerns the
+    # ONE-WAY ones only (they come from rule_to_strategy); a two-way one is a defect of another kind
+    nonunary = unconverted["oneway"] if not unconverted["twoway"] else 0
+    info_unconverted = dict(unconverted)
+    wf = int(_wf_input(lab[root], set(empties), enc_rules))
+    nkids = sum(1 + len(x[1]) for x in enc_rules) + sum(len(x[5]) * 3 for x in enc_rules)
+    limit = 40 * (nkids + 4) * (len(lab) + 4)
+    cls = _counting_spec_class(limit)
+    info = {}
+    try:
+        spec = cls(root, rules)
+    except _Unfinished:
+        return spec_in, [9, [], [], [], wf], {"ctor": "unfinished", "wf": wf, "nonunary": nonunary,
+                                              "unconverted": info_unconverted}
+    except (AssertionError, KeyError, IndexError) as e:
+        code = _ctor_error_code(e)
+        return spec_in, [_coarse(code), [], [], [], wf], {"ctor": "%s(%d)" % (type(e).__name__, code), "wf": wf,
+                                                          "nonunary": nonunary, "unconverted": info_unconverted}
+    for c in spec.rules_dict:
+        lab.setdefault(c, len(lab))
+    entries = sorted(_rule_entry(lab, tags, c, r) for c, r in spec.rules_dict.items())
+    order = sorted(spec._class_to_label, key=spec._class_to_label.get)  # pylint: disable=protected-access
+    labels = sorted(lab[c] for c in order)
+    info["label_order"] = [lab[c] for c in order]
+    # _ungroup_equiv_path on the specification just built (a second object: it edits rules_dict)
+    spec2 = cls(root, rules)
+    spec2._ungroup_equiv_path()  # pylint: disable=protected-access
+    ung = sorted(_rule_entry(lab, tags, c, r) for c, r in spec2.rules_dict.items())
+    info["ctor"] = "ok"
+    info["wf"] = wf
+    info["nonunary"] = nonunary
+    info["unconverted"] = info_unconverted
+    info["problems"] = _spec_problems(lab[root], set(empties), enc_rules, entries)
+    info["roundtrip"] = _roundtrip_problems(set(empties), enc_rules, ung)
+    info["entries"] = entries
+    # productivity of what the object holds: an equivalence path counts with each of its steps
+    try:
+        keys, _ = _spec_keys(list(spec.rules_dict.values()))
+        info["final_keys"] = keys
+    except Exception:  # pylint: disable=broad-except
+        info["final_keys"] = None     # table strategies cannot answer for derived forms (see _key_rules)
+    info["npaths"] = sum(1 for e in entries if e[1] == 1)
+    info["nlazy"] = sum(1 for e in entries if e[1] == 2)
+    info["longest_path"] = max([len(e[4]) for e in entries] or [0])
+    info["root_ok"] = spec.root == root and root in spec.rules_dict
+    return spec_in, [0, entries, labels, ung, wf], info
+
+
+def _spec_problems(root, empties, enc_rules, entries):
+    """the PROPERTY on the dictionary the real constructor left, decided on the canonical data only:
+    the root has a rule, every child has a rule or is empty, a path rule is a consistent chain of its members
+    whose class / children are those of its ends, and every rule handed in is still there - as it was, or as
+    a member of a path"""
+    d = {e[0]: e for e in entries}
+    out = []
+    if len(d) != len(entries):
+        out.append("two entries for one class")
+    if root not in d:
+        out.append("the root has no rule")
+    members = {}
+    for e in entries:
+        cls_, kind, _tag, kids, mem = e
+        for k in kids:
+            if k not in d and k not in empties:
+                out.append("child %d of class %d has no rule and is not empty" % (k, cls_))
+        if kind == 1:
+            if not mem:
+                out.append("path rule of class %d without members" % cls_)
+                continue
+            if mem[0][0] != cls_ or mem[-1][2] != kids:
+                out.append("path rule of class %d: class/children are not those of its first/last member" % cls_)
+            for a, b in zip(mem, mem[1:]):
+                if a[2] != [b[0]]:
+                    out.append("path rule of class %d: members do not form a chain" % cls_)
+            for m in mem:
+                members.setdefault(m[0], set()).add(tuple(m[2]))
+        elif kind == 2 and cls_ not in empties:
+            out.append("lazily added empty rule for the non-empty class %d" % cls_)
+    given = {}
+    for r in enc_rules:
+        for m in (r[5] if r[5] else [r]):
+            given[m[0]] = tuple(m[1])             # later rules win, as in the dict comprehension
+    for c, kids in given.items():
+        kept = c in d and d[c][1] != 1 and tuple(d[c][3]) == kids
+        if not kept and kids not in members.get(c, ()):
+            out.append("the rule of class %d -> %r is neither kept nor a member of a path" % (c, list(kids)))
+    return out[:3]
+
+
+def _roundtrip_problems(empties, enc_rules, ung):
+    """grouping, then _ungroup_equiv_path: every rule handed in has to be the rule of its class again"""
+    d = {e[0]: e for e in ung}
+    out = []
+    given = {}
+    for r in enc_rules:
+        for m in (r[5] if r[5] else [r]):
+            given[m[0]] = (tuple(m[1]), m[4])
+    for c, (kids, tag) in given.items():
+        e = d.get(c)
+        if e is None or e[1] == 1 and e[4][0][2] != list(kids) or e[1] != 1 and (tuple(e[3]) != kids or e[2] != tag):
+            # (a path rule stays in the dictionary under the class of its first member only if that member
+            #  was not written back over it: then its first member has to be the rule)
+            out.append("after _ungroup_equiv_path class %d does not have its rule -> %r again" % (c, list(kids)))
+    for e in ung:
+        if e[0] not in given and not (e[1] == 2 and e[0] in empties):
+            out.append("after _ungroup_equiv_path class %d has a rule that was never handed in" % e[0])
+    return out[:3]
+
+
+def _wf_input(root, empties, enc_rules):
+    """the hypotheses of the C02 grouping theorems (Spec/GroupingWf.v wf_input), decided here independently
+    of the model on the rule set as _ungroup_equiv_path leaves it: equivalence rules are unary and their
+    child has a rule; every child has a rule or is empty; following equivalence rules from a hidden class
+    ends at a class that is not hidden; every class with a rule is reachable from the root"""
+    d = {}
+    for r in enc_rules:                       # rules_dict = {rule.comb_class: rule ...}
+        d[r[0]] = r
+    new = {}
+    for r in list(d.values()):                # _ungroup_equiv_path
+        for m in r[5]:
+            new[m[0]] = m + [[]]
+    d.update(new)
+    not_hidden = {root}
+    for r in d.values():
+        if not r[2]:
+            not_hidden.add(r[0])
+            not_hidden.update(r[1])
+    for c, r in d.items():
+        if r[0] != c:
+            return False
+        if r[2] and (len(r[1]) != 1 or r[1][0] not in d):
+            return False
+        for k in r[1]:
+            if k not in d and k not in empties:
+                return False
+    for r in d.values():
+        if r[2]:
+            x, steps = r[1][0], 0
+            while x not in not_hidden:
+                if steps >= len(d) or x not in d or len(d[x][1]) != 1:
+                    return False
+                x = d[x][1][0]
+                steps += 1
+    if root not in d and root not in empties:
+        return False
+    seen, todo = {root}, [root]
+    while todo:
+        x = todo.pop()
+        for k in (d[x][1] if x in d else []):
+            if k not in seen:
+                seen.add(k)
+                todo.append(k)
+    return all(c in seen for c in d)
+
+
+# ---------------------------------------------------------------- SpecificationRuleExtractor._find_rule / rules()
+def _convert_flag():
+    """does rules() hand out unconverted equivalence rules in their equivalence form (the repair proposed in
+    findings/oneway_equivalence_with_empty_sibling.patch.diff)?  Read off the source, or forced by the environment."""
+    import inspect
+    import os
+
+    from comb_spec_searcher.specification_extrator import SpecificationRuleExtractor
+
+    env = os.environ.get("VERIF_C02_CONVERT")
+    if env is not None:
+        return int(env == "1")
+    try:
+        return int("to_equivalence_rule" in inspect.getsource(SpecificationRuleExtractor.rules))
+    except (OSError, TypeError):
+        return 0
+
+
+class _TableIds:
+    """classes and strategies of a table universe carry their ids"""
+
+    def __init__(self, case):
+        self.u = case["universe"]
+
+    def cls(self, c):
+        return c.n
+
+    def sid(self, strat):
+        return getattr(strat, "sid", -1)
+
+    def table(self, labelled):
+        from harness.props.c14 import _enc_strats, _pack_order
+
+        return list(self.u["empty"]), _enc_strats(self.u["strats"], True), _pack_order(self.u["pack"])
+
+
+class _WordIds:
+    """a word search is tabulated (harness/universes/words_c14.py Tabulator, here with the strategies' own
+    is_reversible answers)"""
+
+    def __init__(self, css):
+        from harness.universes import words_c14 as WC
+
+        class Tab(WC.Tabulator):
+            def _entry(self, strat, c):
+                e = super()._entry(strat, c)
+                if e is not None:
+                    try:
+                        e["reversible"] = int(bool(strat.is_reversible(c)))
+                    except Exception:  # pylint: disable=broad-except
+                        e["reversible"] = 0
+                return e
+
+        self.tab = Tab(css.strategy_pack)
+
+    def cls(self, c):
+        return self.tab.cls(c)
+
+    def sid(self, strat):
+        return self.tab.sid(strat)
+
+    def table(self, labelled):
+        from harness.props.c14 import _enc_strats
+
+        t = self.tab.table(labelled)
+        return list(t["empty"]), _enc_strats(t["strats"], False), list(t["pack_order"])
+
+
+FERR = {"ValueError": 1, "RuntimeError": 2, "KeyError": 3, "IndexError": 3, "StrategyDoesNotApply": 4,
+        "AssertionError": 5}
+
+
+def _form_of(ids, rule):
+    from comb_spec_searcher.strategies.rule import EquivalenceRule, ReverseRule
+
+    kind, base = 0, rule
+    if isinstance(rule, EquivalenceRule):
+        if isinstance(rule.original_rule, ReverseRule):
+            kind, base = 3, rule.original_rule.original_rule
+        else:
+            kind, base = 1, rule.original_rule
+    elif isinstance(rule, ReverseRule):
+        kind, base = 2, rule.original_rule
+    try:
+        eqv = int(bool(rule.is_equivalence()))
+    except Exception:  # pylint: disable=broad-except
+        eqv = -1
+    return [kind, ids.sid(rule.strategy), ids.cls(base.comb_class), ids.cls(rule.comb_class),
+            [ids.cls(c) for c in rule.children], eqv]
+
+
+def _findrule_observation(case, res):
+    """(model input, what the real rules() did) for the pruning databases' extractor"""
+    from comb_spec_searcher.strategies.strategy import Strategy
+
+    ex = res.get("find_rule")
+    if ex is None or not hasattr(ex, "cdb_before"):
+        return [], [-1, [], 0], None
+    css = res["css"]
+    cdb = css.classdb
+    ids = _TableIds(case) if case["kind"] == "table" else _WordIds(css)
+    n0, cache0 = ex.cdb_before
+    forget = case["ruledb"] == "forget"
+    ruledb = css.ruledb
+    if forget:
+        rs = [[k[0], list(k[1]), -2] for k in ruledb.rule_to_strategy]
+        es = [[k[0], list(k[1]), -2] for k in ruledb.eqv_rule_to_strategy]
+    else:
+        rs = [[k[0], list(k[1]), ids.sid(v)] for k, v in ruledb.rule_to_strategy.items()]
+        es = [[k[0], list(k[1]), ids.sid(v)] for k, v in ruledb.eqv_rule_to_strategy.items()]
+    forms = [_form_of(ids, r) for r in ex.yielded]
+    err = 0
+    if ex.rules_error is not None:
+        err = FERR.get(type(ex.rules_error).__name__, 9)
+    nafter = len(cdb.comb_class_list)
+    labelled = [cdb.get_class(l) for l in range(nafter)]
+    classes = [ids.cls(c) for c in labelled[:n0]]
+    empty, strats, order = ids.table(labelled)
+    nocap = []
+    if case["kind"] == "word":
+        for i, st in enumerate(ids.tab.strats):
+            if isinstance(st, Strategy) and not st.can_be_equivalent():
+                nocap.append(i)
+    cache = [-1 if x is None else int(bool(x)) for x in cache0]
+    entries = [[p, list(cs)] for p, cs in ex.rules_dict.items()]
+    fr_in = [[int(forget), _convert_flag()], empty, strats, order, classes, cache, rs, es, entries, nocap]
+    info = {"err": err, "nforms": len(forms), "kinds": sorted({f[0] for f in forms}),
+            "new_labels": nafter - n0}
+    return fr_in, [err, forms, nafter], info
+
+
 def impl(case):
-    res = runs.search(case)
+    res = runs.search(case, build_spec=False)
     css = res["css"]
     out = {"found": res["rules"] is not None, "extract": None, "speckeys": [], "problems": [],
            "extraction_error": res.get("error")}
     ext_out = [9, [], 0, 0]
+    spec_out = rev_out = cut_out = [-1, [], [], [], 0]
     if res["extractor"] is not None:
         ex = res["extractor"]
         ruledb = css.ruledb
@@ -149,7 +597,24 @@ def impl(case):
         if res["spec"] is not None:
             spec = res["spec"]
             out["spec_root_ok"] = spec.root == css.start_class
-    out["out"] = [ext_out, pumps_out]
+        lab = {}
+        spec_in, spec_out, info = _spec_observation(css.start_class, rules, lab)
+        out["spec_in"] = spec_in
+        out["spec_info"] = info
+        # the same rules in reverse order: the result may not depend on the order
+        rev_in, rev_out, rev_info = _spec_observation(css.start_class, list(reversed(rules)), lab)
+        out["rev_in"] = rev_in
+        out["rev_same"] = (rev_out[0], _untagged(rev_out[1]), rev_out[2]) == (spec_out[0], _untagged(spec_out[1]), spec_out[2])
+        # one rule left out (which one: decided by the case): a rule set that is not closed
+        if len(rules) >= 2:
+            k = int(case.get("tree_seed", 0)) % len(rules)
+            cut_in, cut_out, cut_info = _spec_observation(css.start_class, rules[:k] + rules[k + 1:], lab)
+            out["cut_in"] = cut_in
+            out["cut_info"] = cut_info
+    fr_in, fr_out, fr_info = _findrule_observation(case, res)
+    out["fr_in"] = fr_in
+    out["fr_info"] = fr_info
+    out["out"] = [ext_out, pumps_out, fr_out, spec_out, rev_out, cut_out]
     out["nrules"] = len(res["rules"]) if res["rules"] is not None else 0
     return out
 
@@ -170,14 +635,29 @@ def encode_with(case, res):
     ext = res.get("extract")
     if ext is None:
         ext = []
-    return [ext, res.get("speckeys", [])]
+    return [ext, res.get("speckeys", []), res.get("fr_in", []), res.get("spec_in", []), res.get("rev_in", []),
+            res.get("cut_in", [])]
+
+
+def _untagged(entries):
+    """entries without the identity tags (the same rule has another tag when the list is reordered)"""
+    return sorted([e[0], e[1], e[3], [[m[0], m[2]] for m in e[4]]] for e in entries)
+
+
+def _canon_spec(sp):
+    # the constructor: dictionaries are compared as maps (sorted by class), the asserts as one AssertionError
+    # (which assert fired is reported in the evidence only); the label ORDER of _enforce_labels is an internal
+    # choice: only the set of labelled classes is compared
+    return [_coarse(sp[0]), sorted(sp[1]), sorted(sp[2]), sorted(sp[3]), sp[4]]
 
 
 def canon_model(mo):
-    ext, pumps = mo
+    ext, pumps, fr, sp, rev, cut = mo
     if ext[0] == 0:
         ext = [0, sorted(ext[1]), ext[2], ext[3]]
-    return [ext, pumps]
+    # rules(): the three asserts as one AssertionError
+    fr = [5 if fr[0] in (5, 6, 7) else fr[0], fr[1], fr[2]]
+    return [ext, pumps, fr, _canon_spec(sp), _canon_spec(rev), _canon_spec(cut)]
 
 
 def oracle(case, res):
@@ -206,6 +686,51 @@ def oracle(case, res):
         for p, _ in keys:
             if not (p in f and f[p] is None):
                 return "class %d of the returned specification does not pump (naive least fixed point)" % p
+    info = res.get("spec_info")
+    if info:
+        ctor = info["ctor"]
+        if ctor == "unfinished" and case["kind"] == "table":
+            # a cycle of hidden classes: equivalence rules with positive shifts, which only the table universes
+            # (arbitrary shifts on DisjointUnion strategies) produce; reported in the evidence
+            pass
+        elif ctor != "ok":
+            why = "CombinatorialSpecification(root, rules) raised %s on the rule set that was handed out" % ctor
+            if info.get("nonunary") and case["ruledb"] in ("base", "forget"):
+                why += " [" + KNOWN_NONUNARY + ": %d unconverted equivalence rule(s) with several children]" % info["nonunary"]
+            return why
+        else:
+            if not info.get("root_ok"):
+                return "the specification object has no rule for its root"
+            if info.get("problems"):
+                return "specification object: %s" % info["problems"][0]
+            if info.get("roundtrip"):
+                return "specification object: %s" % info["roundtrip"][0]
+            if res.get("rev_same") is False:
+                return "CombinatorialSpecification(root, rules) depends on the order of the rules"
+            if not info.get("wf") and case["kind"] == "word":
+                why = "a word search handed out a rule set outside the hypotheses of the grouping theorems"
+                if info.get("nonunary") and case["ruledb"] in ("base", "forget"):
+                    # the constructor happened to get through, the rule set is the one of the open finding
+                    why += " [" + KNOWN_NONUNARY + ": %d unconverted equivalence rule(s) with several children]" % info["nonunary"]
+                return why
+            fk = info.get("final_keys")
+            if fk and (case["kind"] == "word" or case["ruledb"].startswith("forest")):
+                f = naive_lfp([[0, p, kids] for p, kids in fk])
+                for p, _ in fk:
+                    if not (p in f and f[p] is None):
+                        return "class %d of the specification object does not pump (naive least fixed point)" % p
+    ci = res.get("cut_info")
+    if ci and ci["ctor"] == "ok" and ci.get("problems"):
+        # a rule set with one rule left out: the constructor may refuse it (assert) or, when nothing non-empty
+        # is left without a rule, accept it; it must not make up rules
+        lazy = [p for p in ci["problems"] if p.startswith("lazily added")]
+        if lazy:
+            return "constructor on a rule set with one rule left out: %s" % lazy[0]
+    fi = res.get("fr_info")
+    if fi and fi["err"] and not (fi["err"] == 2 and case["ruledb"] == "forget" and case["kind"] == "table"):
+        # RuntimeError of RecomputingDict on table universes: known finding C14 forget-foreign-parent-outside-key
+        if case["kind"] == "word":
+            return "rules() of the extractor raised (code %d) although a specification was announced" % fi["err"]
     if res.get("extract") is not None:
         root, stored, tree, order, reps, paths = res["extract"]
         d = dict((p, cs) for p, cs in res["out"][0][1])
@@ -223,6 +748,15 @@ def oracle(case, res):
             if len(cs) == 1 and (p, cs[0]) in edges:
                 continue
             return "extractor: entry %d -> %r is neither a stored rule nor a recorded edge" % (p, cs)
+    return None
+
+
+KNOWN_NONUNARY = "oneway-equivalence-with-empty-sibling"
+
+
+def finding_match(case, why):
+    if KNOWN_NONUNARY in str(why):
+        return KNOWN_NONUNARY
     return None
 
 
@@ -245,6 +779,26 @@ def classify(case, res):
         tags.append("table_extraction_error:" + res["extraction_error"].split(":")[0])
     if res.get("extract") and res["extract"][5]:
         tags.append("uses_equivalence_paths")
+    fi = res.get("fr_info")
+    if fi:
+        tags.append("find_rule:" + ("ok" if not fi["err"] else "error%d" % fi["err"]))
+        for k in fi["kinds"]:
+            tags.append("find_rule_form:%d" % k)
+        if fi["new_labels"]:
+            tags.append("find_rule_labels_new_classes")
+    ci = res.get("cut_info")
+    if ci:
+        tags.append("ctor_one_rule_left_out:" + ci["ctor"])
+    info = res.get("spec_info")
+    if info:
+        tags.append("ctor:" + info["ctor"])
+        tags.append("ctor_wf_hypotheses:%d" % info.get("wf", 0))
+        if info.get("npaths"):
+            tags.append("ctor_builds_paths")
+        if info.get("longest_path", 0) >= 2:
+            tags.append("ctor_path_of_2_or_more")
+        if info.get("nlazy"):
+            tags.append("ctor_lazy_empty_rules")
     return tags
 
 
@@ -259,16 +813,44 @@ def shrink(case):
             yield {**case, "universe": u2}
 
 
-TECHNIQUE = "Coq proof (closedness of the extractor's rule dictionary for every set order and every valid path oracle; meaning of the productivity verdict via C03) + replayed correspondence + per-instance oracle"
+TECHNIQUE = (
+    "Coq proof (extractor dictionary closed for every set order and path oracle; _find_rule/rules(): genuineness and "
+    "totality over the strategy table for both kinds of stores, every failure characterised; "
+    "CombinatorialSpecification.__init__: the grouping loop never asserts, terminates within an explicit bound, its "
+    "result is characterised class by class, ungrouping gives the rules back, lazy empty rules are sound, "
+    "productivity is preserved; meaning of the productivity verdict via C03) + replayed correspondence of extractor, "
+    "rules() and constructor with the real code + per-instance oracle"
+)
 LEVEL_TEXT = (
-    "C02_closed proves that SpecificationRuleExtractor's dictionary contains the start label, is closed and consists of "
-    "stored rules and explanation-path steps, for every iteration order and every find_path satisfying C06_path; "
-    "C02_productive_decided gives the table-method verdict its least-fixed-point meaning, and that verdict is computed "
-    "(by the extracted, proved-correct model and by the real TableMethod) on every returned specification; genuineness "
-    "and one-rule-per-class are decided per instance by the oracle on real searches over word and table universes."
+    "24 theorems (Props/C02.v, axiom-free). Extractor: C02_closed (dictionary contains the start label, is closed, "
+    "consists of stored rules and explanation-path steps, for every iteration order and every find_path satisfying "
+    "C06_path). _find_rule/rules() over a strategy table and ANY two stores: C02_rules_from_table(_all) - every rule "
+    "handed out is strategy(class) of a table entry, its equivalence form (then exactly one non-empty child), the "
+    "reverse of a REVERSIBLE entry, or the equivalence form of such a reverse, for the strategy a store handed back for "
+    "the entry's key; C02_find_rule_total - after any sequence of ruledb.add calls made as C04 says the searcher makes "
+    "them, every key of rule_to_strategy, every recorded equivalence edge (both ways when two-way) and every key of "
+    "eqv_rule_to_strategy is turned back into a rule filed under exactly that entry (generic version for any stores "
+    "whose lookups reproduce their keys, which C14 proves of RecomputingDict); C02_find_rule_outcomes - every exception "
+    "characterised; the foreign-parent limitation of RuleDBForgetStrategy and the open finding as machine-checked "
+    "counterexamples, the proposed repair as C02_repair_converts (+ Spec/FindRuleRepair.v: with it every equivalence "
+    "rule handed out is unary). Constructor, for every input satisfying wf_input (decidable: C02_wf_decided): "
+    "C02_grouping_never_asserts (no assert of _group_equiv_in_path, EquivalencePathRule.__init__, get_rule for ANY "
+    "fuel), C02_grouping_terminates (within group_fuel turns), C02_grouping_result (_is_valid_spec holds, root kept, "
+    "hidden classes dropped, every other class keeps its rule or becomes the head of a path rule whose members are the "
+    "original rules along the chain - C02_path_members_form_a_chain -, every hidden class lies on a path; that it lies "
+    "on exactly ONE is false in general: C02_hidden_on_two_paths), C02_group_ungroup_roundtrip, "
+    "C02_constructor_never_raises, C02_lazy_empty_sound, C02_set_subrules_only_adds_empty_rules, "
+    "C02_grouping_preserves_productivity (pumping of every class that is not hidden, the root in particular, w.r.t. "
+    "grouped keys iff w.r.t. ungrouped keys), C02_productive_decided (meaning of the per-specification verdict). All "
+    "three models run on every real search and agree with the code."
 )
 LEVEL_NOTE = (
-    "Productivity of pruning-database specifications and genuineness are instance checks, not universal theorems "
-    "(DESIGN.md C02); the forest database's guarantees are C11's theorems. Trusted: Coq kernel, extraction, harness, "
-    "recorded find_path/set-order replay."
+    "Productivity of pruning-database specifications and genuineness of the rule objects of word universes are instance "
+    "checks (DESIGN.md C02); the forest database's guarantees are C11's theorems (its _find_rule is not re-modelled "
+    "here). C02_enforce_labels_partial: no KeyError and distinct labels, termination within the fuel unproved. The "
+    "constructor model covers group_equiv=True and False; paths of paths are not modelled. Open finding "
+    "oneway-equivalence-with-empty-sibling (KNOWN-FINDING): the model follows the code as it is; with the proposed "
+    "repair applied the harness detects it in the source of rules() (or VERIF_C02_CONVERT=1) and runs the repaired "
+    "model (tested on a patched copy: 24000 cases, 0 mismatches, 0 oracle failures). Trusted: Coq kernel, extraction, "
+    "harness, recorded find_path/set-order replay."
 )
